@@ -25,7 +25,7 @@ demo $W/_b > $W/_b/demo_changed.txt 2>&1; DC=$?
 echo "$ID/$CH: demo(HEAD)=$DH demo(changed)=$DC stable: $ST"
 if [ $DH -eq 0 ] && [ $DC -ne 0 ] && echo "$ST" | grep -q "failing \[\]"; then
   D=/verif/seeded/$ID-$CH; mkdir -p $D
-  cp "$SRC/patch.diff" $D/; for f in demo.sh demo.py demo.cpp; do [ -f "$SRC/$f" ] && cp "$SRC/$f" $D/; done
+  cp "$SRC/patch.diff" $D/; find "$SRC" -maxdepth 1 -type f -size -256k ! -name meta.json -exec cp {} $D/ \;
   tail -c 3000 $W.head/demo_head.txt > $D/demo_on_head.txt; tail -c 3000 $W/_b/demo_changed.txt > $D/demo_on_changed.txt
   python3 - "$SRC/meta.json" "$D/meta.json" "$DH" "$DC" "$ST" <<'PY'
 import json,sys
